@@ -243,6 +243,10 @@ func (g *vgen) fill(v reflect.Value, p tags.Params) {
 			// arbitrary bits there (the value is the same BIT STRING; the encoding must not depend on them)
 			b[len(b)-1] &= 0xff << uint(8-n%8)
 		}
+		if n > 8 && g.inject("bitstring-short-bytes") {
+			// fewer octets than the bit length needs: refused (or a trap), never a lock or a buffer left behind
+			b = b[:len(b)-1]
+		}
 		v.Set(reflect.ValueOf(aper.BitString{Bytes: b, BitLength: uint64(n)}))
 		return
 	case aper.OctetStringType:
@@ -446,6 +450,10 @@ func (g *vgen) fillChoice(v reflect.Value, p tags.Params, want int) int {
 		alt = want
 	}
 	v.Field(0).SetInt(int64(alt))
+	if v.Field(alt).Kind() == reflect.Ptr && g.inject("choice-selected-nil") {
+		// Present names an alternative that was never filled in: refused, not put on the wire as nothing
+		return alt
+	}
 	ap := tags.Parse(t.Field(alt).Tag.Get("aper"))
 	g.fill(v.Field(alt), ap)
 	return alt
